@@ -18,13 +18,15 @@ func x1Scenarios(prop, tier string) []*Scenario {
 	case "C04":
 		return c04Scenarios(tier)
 	case "C02":
-		return c02Scenarios(tier)
+		return append(c02Scenarios(tier), prefixed("cancel/", c04Scenarios(tier))...)
 	case "C08":
-		return c08Scenarios(tier)
+		return append(c08Scenarios(tier), prefixed("cancel/", c04Scenarios(tier))...)
 	case "C13":
 		return c13Scenarios(tier)
 	case "C11":
 		return c11Scenarios(tier)
+	case "C10":
+		return c10Scenarios(tier)
 	case "C06":
 		return c06Scenarios(tier)
 	case "C01", "C03", "C07", "C16":
@@ -288,6 +290,9 @@ func runX1Unit(u Unit, sc *Scenario, bound int) UnitResult {
 		}
 	}
 	res.Samples = x.Samples
+	if sc.PostRun != nil {
+		res.Viol = append(res.Viol, sc.PostRun()...)
+	}
 	if x.RaceReports > 0 || u.Prop == "C13" {
 		res.Extra = map[string]int{"race_reports_total": x.RaceReports, "race_reports_in_checker_code_ignored": x.RaceInternal, "race_reports_during_teardown_ignored": x.RaceTeardown}
 	}
@@ -469,6 +474,13 @@ func c04Scenarios(tier string) []*Scenario {
 	return scs
 }
 
+func prefixed(p string, scs []*Scenario) []*Scenario {
+	for _, sc := range scs {
+		sc.Name = p + sc.Name
+	}
+	return scs
+}
+
 // heavyBound is the deviation bound for scenarios with three or more client threads
 func heavyBound(tier string) *int {
 	if tier == "thorough" {
@@ -562,6 +574,14 @@ func raceScenarios(prop, tier string) []*Scenario {
 			[][]Op{{{Kind: "S", Pipeline: "p"}}, {{Kind: "S", Pipeline: "p"}}}, true, ""},
 		{"timers-conc2", "two delayed jobs, concurrency 2; timers, completions and a new request race", []PipeCfg{del2}, []XEvent{S, S}, 2,
 			[][]Op{{{Kind: "S", Pipeline: "p"}}}, true, ""},
+		{"concurrent-schedules-idle/conc1", "two clients schedule an idle pipeline with concurrency 1 at once", []PipeCfg{one}, nil, 0,
+			[][]Op{{{Kind: "S", Pipeline: "p"}}, {{Kind: "S", Pipeline: "p"}}}, false, ""},
+		{"schedule-vs-last-completion/conc1", "job 1 is the only running job; a new request races with its completion", []PipeCfg{one}, []XEvent{S}, 1,
+			[][]Op{{{Kind: "S", Pipeline: "p"}}}, false, ""},
+		{"schedule-vs-last-completion/conc2", "jobs 1,2 run; two new requests race with their completions", []PipeCfg{two}, []XEvent{S, S}, 2,
+			[][]Op{{{Kind: "S", Pipeline: "p"}}, {{Kind: "S", Pipeline: "p"}}}, true, ""},
+		{"concurrent-schedules-replace-idle", "replace strategy with delay, idle pipeline: two clients schedule at once", []PipeCfg{delRep}, nil, 0,
+			[][]Op{{{Kind: "S", Pipeline: "p"}}, {{Kind: "S", Pipeline: "p"}}}, false, ""},
 		{"reload-limit-vs-completion", "concurrency 1 -> 2 -> 1 reloads race with completions while jobs wait", []PipeCfg{one, two}, []XEvent{S, S, S}, 3,
 			[][]Op{{{Kind: "R", Def: 1}, {Kind: "R", Def: 0}}}, false, ""},
 		{"reload-tasks-vs-running-job", "the task list is reloaded while job 1 runs a->b and job 2 waits; a third job is accepted afterwards", []PipeCfg{chain, chainB}, []XEvent{S, S}, 2,
@@ -647,9 +667,9 @@ func c05Scenarios(tier string) []*Scenario {
 
 // c15Scenarios: the task order of the report (static, no execution needed beyond one default run)
 func c15Scenarios(tier string) []*Scenario {
-	maxN := 3
+	maxN := 4
 	if tier == "thorough" {
-		maxN = 4
+		maxN = 5
 	}
 	var scs []*Scenario
 	for n := 1; n <= maxN; n++ {
